@@ -392,3 +392,16 @@ func Seed() int64 {
 	}
 	return v
 }
+
+// FlushAll flushes every stats object of the process.
+func FlushAll() {
+	statsMu.Lock()
+	var l []*Stats
+	for _, s := range allStats {
+		l = append(l, s)
+	}
+	statsMu.Unlock()
+	for _, s := range l {
+		s.Flush()
+	}
+}
